@@ -14,6 +14,9 @@ pub struct Violation {
     pub detail: String,
     /// the materialised scenario that reproduces it
     pub scenario: Scenario,
+    /// build profile of the worker that observed it ("checked" or "release")
+    #[serde(default)]
+    pub profile: String,
 }
 
 impl Violation {
@@ -80,6 +83,7 @@ impl RunReport {
             site: site.into(),
             detail,
             scenario: sc.clone(),
+            profile: String::new(),
         });
     }
 }
